@@ -26,6 +26,67 @@ FEATS = [
          nplan=(3, 8), ticks=(10, 20), benter_all=True),
 ]
 
+# guarded frames inside auxiliary framers that are mostly run as clones (gen.cloneify), half of the guards negated
+CLONE_FEAT = dict(p_let=0.9, p_aux_let=1.0, p_neg=0.5, nframes=(2, 5), ngo=(1, 2), p_uncond_go=0.3, p_aux=0.8, naux=(1, 3), p_shared_aux=0.0,
+                  nplan=(3, 8), ticks=(10, 20), benter_all=True)
+
+
+def gated_condaux_case(rng):
+    """A conditional auxiliary whose condition is an update / change condition and whose first frame has an entry guard that
+    opens at a planned tick: while the guard refuses the start, the attempt must leave the mark alone (no transit action of a
+    refused attempt runs), so the start happens as soon as the guard opens -- without a new write."""
+    T = 14
+    kind = rng.choice(["updated", "changed"])
+    writer = rng.choice(["front", "back"])
+    gate = rng.randint(3, 10)
+    plan = sorted(set(rng.randint(1, T - 3) for _ in range(rng.randint(1, 3))))
+    vals = [rng.choice([1, 2, 1, 0]) for _ in plan]
+    infr = rng.choice(["", " in frame", " in frame A"])
+    L = ["house h", "", "  init .w with value 0", "  init .g with value 0", "",
+         "  framer gk be active in front", "    frame g0", "      recur", "      inc .g with 1", "",
+         "  framer drv be active in %s" % writer]
+    prev = 0
+    for i, t in enumerate(plan):
+        L.append("    frame d%d" % i)
+        if i > 0:
+            L.append("      put %d into .w" % vals[i - 1])
+        L.append("      go next if recurred >= %d" % (t - prev))
+        prev = t
+    L += ["    frame dl", "      put %d into .w" % vals[-1], "      go next if recurred >= %d" % max(1, T - prev), "    frame dfin", "      bid stop all", ""]
+    L += ["  framer m be active", "    frame A", '      do vf rec with tag "m.A.enter" at enter',
+          "      aux ax if .w is %s%s" % (kind, infr), "",
+          "  framer ax be aux", "    frame x0", "      let me if .g >= %d" % gate, '      do vf rec with tag "ax.x0.enter" at enter', ""]
+    return {"text": "\n".join(L) + "\n", "kind": kind, "writer": writer, "gate": gate, "plan": list(zip(plan, vals)), "T": T,
+            "inframe": bool(infr)}
+
+
+def gated_condaux_eval(case):
+    from vf.flo import runner
+    res = runner.run_text(case["text"], maxticks=case["T"] + 6)
+    if not res.built:
+        return ("nobuild", res.build_msgs[-1:])
+    if res.exc is not None:
+        return ("raised", repr(res.exc))
+    got = [e["tick"] for e in res.trace if e["tag"] == "ax.x0.enter"]
+    writes = dict(case["plan"])
+    value, upd, exp, refused = 0, None, None, 0
+    for t in range(case["T"] + 1):
+        if case["writer"] == "front" and t in writes:
+            value, upd = writes[t], t
+        if t >= 1 and exp is None:
+            # with `in frame` the mark is set when A is entered (tick 0); without it there is no mark before the first start
+            # (any update counts / `changed` is true before the first snapshot)
+            holds = (upd is not None) if case["kind"] == "updated" else (value != 0 if case["inframe"] else True)
+            if holds:
+                if t + 1 >= case["gate"]:
+                    exp = t
+                else:
+                    refused += 1
+        if case["writer"] == "back" and t in writes:
+            value, upd = writes[t], t
+    return ("ok" if got == ([exp] if exp is not None else []) else "differs", {"observed_start_ticks": got, "expected_start_tick": exp},
+            refused, exp)
+
 
 def worker(ctx, job):
     from vf.flo import runner, monitors, refint, compare
@@ -41,12 +102,41 @@ def worker(ctx, job):
         for k in list(ctx.fail_counts):
             if k.startswith("marker-condition/"):
                 ctx.fail_counts["refused-transition/" + k] = ctx.fail_counts.get("refused-transition/" + k, 0) + ctx.fail_counts.pop(k)
+    for seed in job.get("gca", []):
+        case = gated_condaux_case(random.Random(seed))
+        r = gated_condaux_eval(case)
+        if r[0] == "nobuild":
+            ctx.inconclusive_case("gated conditional aux program did not build: %s" % (r[1],))
+            continue
+        if r[0] == "raised":
+            ctx.fail("gated-condaux/run-raised", "run raised %s" % r[1], {"program": case["text"]})
+            continue
+        ctx.event()
+        ctx.hit("gated_condaux_histories")
+        ctx.hit("gated_condaux_refused_attempts", r[2])
+        if r[2] and r[3] is not None:
+            ctx.hit("gated_condaux_started_after_refusals")
+        ctx.case(case["text"], nontrivial=bool(r[2]), sample={"program": case["text"], "start": r[1]} if r[2] and seed % 16 == 0 else None)
+        ctx.check(r[0] == "ok", "gated-condaux/refused-start-changed-a-later-start",
+                  "conditional aux guarded by `%s`, entry guard opening at tick %d: %s" % (case["kind"], case["gate"] - 1, r[1]),
+                  lambda: {"program": case["text"], "case": {k: v for k, v in case.items() if k != "text"}, "result": r[1],
+                           "refused_attempts_before": r[2]})
+    variants = []
     for seed, fi in job["items"]:
         rng = random.Random(seed)
-        prog = gen.gen_program(rng, gen.pickfeat(FEATS, fi))
-        text = P.render(prog)
+        prog = gen.gen_program(rng, gen.feat(**CLONE_FEAT) if fi == "clone" else gen.pickfeat(FEATS, fi))
+        variants.append((prog, None))
+        # the same program with auxiliary framers turned into clones of moot framers (their guards are copies made by
+        # Act.clone): monitored under the names of the framers they stand for
+        p2, alias = gen.cloneify(prog, random.Random(seed ^ 0x5EED))
+        if alias:
+            variants.append((prog, (p2, alias)))
+    for prog, cloned in variants:
+        text = P.render(cloned[0] if cloned else prog)
         cap = prog["ticks"] + 12
-        res = runner.run_text(text, maxticks=cap, post=True, watch=gen.WATCH)
+        res = runner.run_text(text, maxticks=cap, post=True, watch=gen.WATCH, alias=cloned[1] if cloned else None)
+        if cloned:
+            ctx.hit("cloned_aux_variants")
         if not res.built:
             ctx.inconclusive_case("generated program did not build: %s" % (res.build_msgs[-1:],))
             continue
@@ -83,7 +173,12 @@ def run(ctx):
     from vf.checks import c20
     opts = c20.need_opts()
     gated = [c20.random_case(ctx.rng, opts, gated=True) for _ in range(ctx.pick(320, 6400))]
-    ctx.shard([{"items": items[i::16], "gated": gated[i::16]} for i in range(16)], timeout=ctx.pick(300, 1500))
+    items += [(ctx.rng.randrange(1 << 30), "clone") for _ in range(ctx.pick(320, 6000))]
+    gca = [ctx.rng.randrange(1 << 30) for _ in range(ctx.pick(160, 6000))]
+    ctx.shard([{"items": items[i::16], "gated": gated[i::16], "gca": gca[i::16]} for i in range(16)], timeout=ctx.pick(300, 1500))
+    ctx.floor("gated_condaux_started_after_refusals", 30)
+    ctx.floor("cloned_aux_variants", 40)
+    ctx.floor("negated_guard_attempts_in_clones", 10)
     ctx.floor("guard_refused_marker_transition", 30)
     ctx.floor("attempts_refused", 50)
     ctx.floor("attempts_admitted", 50)
